@@ -2,6 +2,9 @@ import WtVerif.Driver.Ops
 import WtVerif.Driver.Ops2
 import WtVerif.Driver.Ops3
 import WtVerif.Driver.Ops4
+import WtVerif.Driver.Ops5
+import WtVerif.Driver.Ops6
+import WtVerif.Driver.Ops7
 
 namespace Ops
 
@@ -14,6 +17,15 @@ def handle (op : String) (a obs : List String) : Option Verdict :=
     | none =>
       match handle3 op a obs with
       | some v => some v
-      | none => handle4 op a obs
+      | none =>
+        match handle4 op a obs with
+        | some v => some v
+        | none =>
+          match handle5 op a obs with
+          | some v => some v
+          | none =>
+            match handle6 op a obs with
+            | some v => some v
+            | none => handle7 op a obs
 
 end Ops
